@@ -20,7 +20,7 @@ def main():
     a = ap.parse_args()
     if a.gen:
         import translators
-        translators.gen_all(strict=False, which=("Consts", "Effects"))
+        translators.gen_all(strict=False, which=("Consts", "Effects", "MoveTables"))
         return 0
     if a.scan:
         bad = common.scan_forbidden()
